@@ -263,7 +263,12 @@ func init() {
 			return e.combineErrors(st, []*IfaceV{args[0].(*IfaceV), args[1].(*IfaceV)})
 		},
 		"encoding/json.Unmarshal": func(e *Exec, st *State, f *ssa.Function, args []Value, pos token.Pos) Value {
-			// err == nil ==> *v == jsonDecode_T(data); on error the target is arbitrary
+			// json.Unmarshal MERGES into its target: members absent from the input
+			// keep what the target held.  Only for a target that still holds the
+			// zero value it was allocated with is the result the pure decoding:
+			//   err == nil ==> *v == jsonDecode_T(data).
+			// For any other target the result is arbitrary (an unknown merge); on
+			// error the target is arbitrary as well.
 			c := e.C
 			data := e.seqTerm(st, e.sliceSeq(st, args[0].(*SliceV)))
 			errv := e.fresh(errorType, "json_err").(*IfaceV)
@@ -284,7 +289,14 @@ func init() {
 				}
 				e.frameCheck(st, al.Loc, al.Cond, "json.Unmarshal target", pos)
 				old := e.loadLoc(st, al.Loc)
-				nv := e.merge(ok, dec, e.havocLike(old, "json_partial"))
+				pristine := len(al.Loc.Path) == 0 && al.Loc.Obj.zeroInit != nil && st.mem[al.Loc.Obj] == al.Loc.Obj.zeroInit
+				var nv Value
+				if pristine {
+					nv = e.merge(ok, dec, e.havocLike(old, "json_partial"))
+				} else {
+					nv = e.havocLike(old, "json_merged")
+					e.Externs["encoding/json.Unmarshal into a target that may already hold data: result treated as an arbitrary merge"] = true
+				}
 				if !al.Cond.IsTrue() {
 					nv = e.merge(al.Cond, nv, old)
 				}
